@@ -69,6 +69,7 @@ func Verif_C11_Gate() {
 		ct = StreamRpcContentType_V1
 	}
 	binHdr, hasBin, timeout := "", false, ""
+	binHdr2, hasBin2 := "", false
 	var body []byte
 	handlerFails := false
 	nResp := 1
@@ -92,6 +93,10 @@ func Verif_C11_Gate() {
 		} else {
 			if hasBin {
 				binHdr = zv.String("bin-header", zv.Param("bincap", 4))
+				if zv.Bool("second-bin-value") {
+					binHdr2 = zv.String("bin-header-2", zv.Param("bincap", 4))
+					hasBin2 = true
+				}
 			}
 			timeout = zv.String("grpc-timeout", zv.Param("timeoutcap", 2))
 		}
@@ -140,6 +145,9 @@ func Verif_C11_Gate() {
 	if hasBin {
 		hdr.Set("K-Bin", binHdr)
 	}
+	if hasBin2 {
+		hdr.Add("K-Bin", binHdr2) // a repeated header: every value must decode
+	}
 	if timeout != "" {
 		hdr.Set("GRPC-Timeout", timeout)
 	}
@@ -163,6 +171,10 @@ func Verif_C11_Gate() {
 	if hasBin {
 		_, derr := asMetadata(http.Header{"K-Bin": {binHdr}})
 		binOK = derr == nil
+	}
+	if hasBin2 {
+		_, derr2 := asMetadata(http.Header{"K-Bin": {binHdr2}})
+		binOK = binOK && derr2 == nil
 	}
 	zv.Observe("gate", streaming, method, ct, rec.code, invocations)
 	zv.Assert(len(hooks.Ran) <= 1 && invocations <= 1, "handler-runs-at-most-once")
